@@ -20,7 +20,7 @@ NPROC = os.cpu_count() or 4
 ALLOWED_AXIOMS = set()  # no axiom is used by any Props/ theorem (DESIGN §8)
 
 BASE_ENV = dict(os.environ)
-BASE_ENV.update({"CARGO_NET_OFFLINE": "true", "CARGO_TARGET_DIR": CARGO_TARGET})
+BASE_ENV.update({"CARGO_NET_OFFLINE": "true", "CARGO_TARGET_DIR": CARGO_TARGET, "RUST_BACKTRACE": "0"})
 
 
 class CheckFailure(Exception):
